@@ -94,6 +94,14 @@ enum InnerAsyncNetworkStream {
 }
 
 #[allow(deprecated)]
+/// The error of a TLS handshake that did not finish within the timeout
+pub(super) fn tls_handshake_timed_out() -> Error {
+    error::connection(io::Error::new(
+        io::ErrorKind::TimedOut,
+        "TLS handshake timed out",
+    ))
+}
+
 impl AsyncNetworkStream {
     fn new(inner: InnerAsyncNetworkStream) -> Self {
         if let InnerAsyncNetworkStream::None = inner {
@@ -195,7 +203,15 @@ impl AsyncNetworkStream {
         let mut stream =
             AsyncNetworkStream::new(InnerAsyncNetworkStream::Tokio1Tcp(Box::new(tcp_stream)));
         if let Some(tls_parameters) = tls_parameters {
-            stream.upgrade_tls(tls_parameters).await?;
+            // The timeout covers the TLS handshake as well as the TCP connection
+            match timeout {
+                Some(timeout) => {
+                    tokio1_crate::time::timeout(timeout, stream.upgrade_tls(tls_parameters))
+                        .await
+                        .map_err(|_| tls_handshake_timed_out())??;
+                }
+                None => stream.upgrade_tls(tls_parameters).await?,
+            }
         }
         Ok(stream)
     }
@@ -246,7 +262,15 @@ impl AsyncNetworkStream {
 
         let mut stream = AsyncNetworkStream::new(InnerAsyncNetworkStream::AsyncStd1Tcp(tcp_stream));
         if let Some(tls_parameters) = tls_parameters {
-            stream.upgrade_tls(tls_parameters).await?;
+            // The timeout covers the TLS handshake as well as the TCP connection
+            match timeout {
+                Some(timeout) => {
+                    async_std::future::timeout(timeout, stream.upgrade_tls(tls_parameters))
+                        .await
+                        .map_err(|_| tls_handshake_timed_out())??;
+                }
+                None => stream.upgrade_tls(tls_parameters).await?,
+            }
         }
         Ok(stream)
     }
